@@ -64,6 +64,14 @@ func genC02(t *rapid.T) c02Case {
 				memFile{Name: "sub/t.env", Content: "Z=1\nA=2\n"})
 		}
 	}
+	// one service referred to through several attributes at once, spelled differently each time: the implied
+	// dependency is one entry, whatever order the references are looked at
+	if rapid.IntRange(0, 2).Draw(t, "multiref") == 0 {
+		cs.Feature = append(cs.Feature, "one-service-referenced-by-several-attributes")
+		root := names[0]
+		svcs["multiref"] = map[string]any{"image": "m", "links": []any{root + ":alias", root}, "volumes_from": []any{root + ":ro"}, "ipc": "service:" + root, "pid": "service:" + root}
+		svcs["multiref2"] = map[string]any{"image": "m", "volumes_from": []any{root, root + ":rw"}, "links": []any{root + ":other"}, "network_mode": "service:" + root}
+	}
 	// the number of things: a service whose collections are long (library sort routines switch algorithm with
 	// the length, maps grow buckets) and contain ties (several addresses per host, several values per key prefix)
 	if rapid.IntRange(0, 2).Draw(t, "bulk") == 0 {
@@ -98,7 +106,7 @@ func genC02(t *rapid.T) c02Case {
 		sp := &splitter{t: t, n: rapid.IntRange(2, 3).Draw(t, "nparts"), used: map[string]int{}}
 		// the extends services are not split: put them into the first part afterwards
 		ext := map[string]any{}
-		for _, n := range []string{"mid", "left", "right", "far", "bulk"} {
+		for _, n := range []string{"mid", "left", "right", "far", "bulk", "multiref", "multiref2"} {
 			if s, ok := svcs[n]; ok {
 				ext[n] = s
 				delete(svcs, n)
